@@ -177,6 +177,7 @@ type deferred struct {
 type loopCut struct {
 	entryPC int
 	recBase int // number of recorded calls when the loop was entered (after havoc)
+	objBase int // first object id allocated after the loop was entered
 }
 
 func (s *State) clone() *State {
